@@ -402,6 +402,28 @@ def run_shard(cfg):
         subst("payload-truncated", lambda b, cl: build_server_hello(C, b, payload=b["payload"][:-1]))
         subst("payload-extended", lambda b, cl: build_server_hello(C, b, payload=b["payload"] + b"\x00"))
         subst("root-pub-attacker-only", lambda b, cl: build_server_hello(C, b, root_pub=atk_root.getPublicKey().getBytes()), must_fail=None)
+        # the hello body under EVERY other registered type id: the attacker's (ephemeral key, salt, token) as three plain values, no
+        # signature at all - whatever class that id names, a pinned client must not key itself from it
+        import struct as _st
+        from mpgameserver import serializable as _S
+
+        def unsigned_triple_under(tid):
+            def build(b, cl):
+                st = BytesIO()
+                st.write(_st.pack(">H", tid))
+                _S.serialize_value(st, atk_eph.getPublicKey().getBytes())
+                _S.serialize_value(st, r.randbytes(16))
+                _S.serialize_value(st, b["token"])
+                body = b["msgseq"] + st.getvalue()          # the genuine datagram's header and message seq, the attacker's body
+                h = b["hdr"]
+                hdr = struct.pack(">4sLHHBHBL", h[0], h[1], h[2], h[3], h[4], len(body), h[6], h[7])
+                return hdr + body + A.crc(hdr + body)
+            return build
+        genuine_tid = C.HandshakeServerHelloMessage.type_id
+        for tid in sorted(_S.SerializableType.registry):
+            if tid != genuine_tid:
+                subst("unsigned-parameters-under-type-id-%d" % tid, unsigned_triple_under(tid), ticks=6)
+                out["counters"].inc("hello_bodies_under_other_type_ids")
         # a genuine hello of ANOTHER session (signed by the matching key): not a forgery by the statement; observed
         other_session = {}
 
@@ -617,7 +639,7 @@ def finish(tier, seed, results):
     m = merge(results)
     inconclusive = []
     need(m["counters"], ["honest_handshakes", "root_key_signatures", "client_key_derivations", "client_params_in_signed_set",
-                         "signature_verified_independently", "promotions_with_proof", "post_handshake_rewrapped_hellos", "retries_on_same_client_object", "second_sessions_on_same_client_object", "plaintext_challenges_after_unanswered_hello", "client_left_unconnected",
+                         "signature_verified_independently", "promotions_with_proof", "post_handshake_rewrapped_hellos", "retries_on_same_client_object", "second_sessions_on_same_client_object", "plaintext_challenges_after_unanswered_hello", "hello_bodies_under_other_type_ids", "client_left_unconnected",
                          "mutations_type1", "mutations_type2", "mutations_type3", "server_connect_events", "concurrent_pending_pairs"], inconclusive)
     cov = {
         "evaluations": m["evaluations"],
